@@ -56,10 +56,14 @@ def _with_logic(cmds, logic):
 def b_answers(job):
     """C01 C02 (C03): one incremental script, models requested after every check."""
     rng = random.Random(job["seed"])
-    g = G.Gen(rng, job["logic"])
+    g = G.Gen(rng, job["logic"], nnum=job.get("nnum", 3), maxconst=job.get("maxconst", 4))
     queries = [{"c": "get-model"}] if not g.arr else []
     if job.get("mode") == "interface":
         body = G.interface_history(g, rng, queries=queries)
+    elif job.get("mode") == "cnf":
+        body = cnf_history(g, rng, n_atoms=job.get("n_atoms", 8), levels=job.get("levels", 4))
+        if queries:
+            body = [x for c in body for x in ([c] + ([dict(q) for q in queries] if c["c"] == "check-sat" else []))]
     else:
         body = G.random_history(g, rng, n_assert=job.get("n_assert", 5), queries=queries, fdepth=job.get("fdepth", 2))
     cfg = job.get("cfg", "c0")
@@ -184,7 +188,7 @@ def cnf_history(g, rng, n_atoms=6, levels=4):
 def b_incremental(job):
     """C04: incremental script with queries between checks vs fresh solver per check."""
     rng = random.Random(job["seed"])
-    g = G.Gen(rng, job["logic"])
+    g = G.Gen(rng, job["logic"], nnum=job.get("nnum", 3), maxconst=job.get("maxconst", 4))
     if job.get("mode") == "cnf":
         cfg = job.get("cfg", "c0")
         opts = _opts(rng.choice(["c0", "c0", "cores", "proofs"])) + _opts(cfg)
@@ -246,8 +250,12 @@ def add_itp_queries(body, rng):
 def b_configs(job):
     """C05: the same script under several configurations and logic embeddings."""
     rng = random.Random(job["seed"])
-    g = G.Gen(rng, job["logic"])
-    body = G.random_history(g, rng, n_assert=job.get("n_assert", 5), fdepth=2, define_funs=True)
+    g = G.Gen(rng, job["logic"], nnum=job.get("nnum", 3), maxconst=job.get("maxconst", 4))
+    if job.get("mode") == "cnf":
+        # clause sets over few, closely related atoms (small constants: equal and opposite bounds, zero-weight cycles)
+        body = cnf_history(g, rng, n_atoms=job.get("n_atoms", 7), levels=job.get("levels", 4))
+    else:
+        body = G.random_history(g, rng, n_assert=job.get("n_assert", 5), fdepth=2, define_funs=True)
     haspush = any(c["c"] in ("push", "pop") for c in body)
     fam = C.Family(g)
     fam.add_run("s", "c0", "main", G.preamble(g, _opts("c0")) + body)
@@ -378,6 +386,17 @@ def b_cores(job):
         opts += _opts("models", "assign"); q = [{"c": "get-unsat-core"}, {"c": "get-model"}, {"c": "get-assignment"}]
     body = unsat_biased_body(g, rng, n_named=job.get("n_named", 4), p_named=job.get("p_named", 0.75), queries=q,
                              histories=job.get("histories", True), n_atoms=job.get("n_atoms", 3))
+    if rng.random() < job.get("p_hidden_unsat", 0.2):
+        # the unnamed assertions are contradictory on their own: the minimal named core is empty
+        tb = g.tb
+        a = rng.choice(g.bools)
+        b = rng.choice(g.bools)
+        extra = rng.choice([[a, tb.app("not", [a])],
+                            [tb.app("or", [a, b]), tb.app("not", [a]), tb.app("not", [b])] if a != b else [a, tb.app("not", [a])]])
+        asserts = [i for i, c in enumerate(body) if c["c"] == "assert"]
+        for f in extra:
+            i = rng.choice(asserts) if asserts and rng.random() < 0.7 else 0
+            body.insert(i, {"c": "assert", "t": f, "nm": "", "inner": []})
     cfg = job.get("cfg", "c0")
     cmds = G.preamble(g, opts + _opts(cfg)) + body
     fam = C.Family(g)
@@ -680,25 +699,72 @@ def b_pipe(job):
         g._declare(nm, (), BOOL); wv.append(tb.var(nm, BOOL)); g.bools.append(wv[-1])
     body = G.random_history(g, rng, n_assert=4, queries=[{"c": "get-model"}] if not g.arr else [], fdepth=1)
     echos = ['plain', 'with ) paren', 'semi ; colon', '( open', 'bar | bar', ') ; ( | all', 'two  spaces']
-    if job.get("escapes"):
-        echos += ['back\\\\slash', 'quote \\" inside ) it']
+    esc = ['back\\\\slash', 'quote \\" inside ) it', 'C:\\\\', '\\"(', 'a\\\\\\"b ; (']
     cmds = G.preamble(g, _opts("models") if not g.arr else [])
+    if job.get("escapes"):
+        cmds.insert(rng.randint(0, len(cmds)), {"c": "echo", "s": rng.choice(esc)})
     for c in body:
         cmds.append(c)
         if rng.random() < 0.4:
-            cmds.append({"c": "echo", "s": rng.choice(echos)})
+            cmds.append({"c": "echo", "s": rng.choice(echos + (esc if job.get("escapes") else []))})
     text = relayout(G.render_script(cmds, tb), rng)
+    special = [i + 1 for i, ch in enumerate(text) if ch in '\\"|;']
+    if job.get("escapes") and "\\" in text:
+        # the scanner fills a buffer of 15, then 16, 32, ... bytes when input is available: put the first backslash on
+        # the last byte of one of those reads
+        b = text.index("\\")
+        target = next((t for t in (14, 30, 62, 126, 254, 510) if t >= b), None)
+        if target is not None and rng.random() < 0.7:
+            text = " " * (target - b) + text
+            special = [i + 1 for i, ch in enumerate(text) if ch in '\\"|;']
     fam = C.Family(g)
     fam.add_run("s", "c0", "main", cmds, io="file", text=text)
     scheds = [[1], [2], [3], [7], [16], [5, 1, 11], [64], None]
-    for sc in (scheds if job.get("all_chunks") else rng.sample(scheds, 3)):
+    # cuts right after the characters that change the scanner's state (backslash, quote, bar, semicolon), with pauses
+    if special:
+        cuts = sorted(set(rng.sample(special, min(len(special), 25))))
+        scheds_x = [["cuts"] + cuts]
+        if "\\" in text:
+            scheds_x.append(["cuts"] + [i + 1 for i, ch in enumerate(text) if ch == "\\"][:30])
+    else:
+        scheds_x = []
+    for sc in (scheds if job.get("all_chunks") else rng.sample(scheds, 3)) + scheds_x:
         fam.add_run("s", "c0", "pipe", cmds, io="pipe", chunks=sc, text=text)
     return _result(fam, job, mon=False)
+
+def exotic_script(rng):
+    """scripts that use the corners of the input language whose echo/printing code is rarely visited: sorts with
+    parameters, as-qualified identifiers, echo, get-info/get-option, annotated terms in get-value"""
+    L = ["(set-option :produce-models true)"]
+    if rng.random() < 0.5: L.append("(set-option :produce-assignments true)")
+    L += ["(set-logic %s)" % rng.choice(["QF_UF", "QF_UFLIA", "QF_UFLRA"]), "(declare-sort U 0)", "(declare-sort Pair 2)", "(declare-sort Box 1)",
+          "(declare-fun p () (Pair U Bool))", "(declare-fun q () (Pair U Bool))", "(declare-fun b () (Box (Pair U U)))",
+          "(declare-fun c () U)", "(declare-fun d () U)", "(declare-fun fst ((Pair U Bool)) U)", "(declare-fun unbox ((Box (Pair U U))) U)",
+          "(declare-fun r () Bool)"]
+    facts = ["(assert (= (fst p) c))", "(assert (not (= p q)))", "(assert (= (unbox b) d))", "(assert (! (or r (= c d)) :named n1))",
+             "(assert (= (fst (as p (Pair U Bool))) (as c U)))", "(assert (distinct c d (fst q)))"]
+    rng.shuffle(facts)
+    L += facts[:rng.randint(2, 5)]
+    qs = ["(get-value ((as c U) (fst p)))", "(get-value ((fst (as p (Pair U Bool)))))", "(get-value ((unbox (as b (Box (Pair U U))))))",
+          "(get-value ((! (fst q) :named n2)))", "(get-value (p q b))", "(get-model)", "(get-assignment)", "(echo \"a b\")",
+          "(get-info :name)", "(get-info :version)", "(get-option :produce-models)", "(get-value ((let ((z c)) (as z U))))"]
+    L.append("(check-sat)")
+    L += rng.sample(qs, rng.randint(2, 5))
+    if rng.random() < 0.4:
+        L += ["(push 1)", "(assert (= c d))", "(check-sat)"] + rng.sample(qs, 2) + ["(pop 1)", "(check-sat)"]
+    return [{"c": "raw", "text": t} for t in L]
 
 def b_rerun(job):
     """C23: the same script twice (different environment size and working directory)."""
     rng = random.Random(job["seed"])
     g = G.Gen(rng, job["logic"])
+    if rng.random() < 0.12:
+        cmds = exotic_script(rng)
+        fam = C.Family(g)
+        fam.add_run("s", "c0", "main", cmds)
+        fam.add_run("s", "c0", "rerun", cmds, env={"VERIF_PAD": "x" * rng.randint(1, 5000)}, cwd="/tmp")
+        fam.add_run("s", "c0", "rerun", cmds, env={"VERIF_PAD2": "y" * rng.randint(1, 9000), "LANG": "C"}, cwd="/")
+        return _result(fam, job, mon=False)
     kind = rng.choice(["models", "cores", "itp", "plain"])
     if g.arr and kind in ("models", "itp"): kind = "plain"
     if g.dl and kind == "itp": kind = "cores"
